@@ -381,6 +381,54 @@ fn multi_with_staking_messages() {
     }
 }
 
+/// found missing by seed C01e: the messages of one execute_multi write, remove and re-write ONE key
+/// (every pattern of three operations out of {set a, set b, remove}, key present or absent before):
+/// an Ok must persist exactly what running the same messages as separate transactions leaves
+fn same_key_over_messages() {
+    let mut t = top(1);
+    let (user, k0) = (t.w.user.clone(), t.w.ks[0].clone());
+    let existed = choose(2) == 1;
+    if existed {
+        t.w.app.execute_contract(user.clone(), k0.clone(), &Script::new().write("slot", "old"), &[]).unwrap();
+    }
+    let mut want: Option<&str> = if existed { Some("old") } else { None };
+    let mut msgs: Vec<CosmosMsg> = vec![];
+    let mut pattern = String::new();
+    for _ in 0..3 {
+        let (script, tag) = match choose(3) {
+            0 => {
+                want = Some("a");
+                (Script::new().write("slot", "a"), 'a')
+            }
+            1 => {
+                want = Some("b");
+                (Script::new().write("slot", "b"), 'b')
+            }
+            _ => {
+                want = None;
+                (Script::new().then(Step::Remove { key: "slot".into() }), '-')
+            }
+        };
+        pattern.push(tag);
+        msgs.push(WasmMsg::Execute { contract_addr: k0.to_string(), msg: script.bin(), funds: vec![] }.into());
+    }
+    note(format!("existed={} pattern={}", existed, pattern));
+    match catch(|| t.w.app.execute_multi(user.clone(), msgs)) {
+        Err(p) => failure("no_panic", "panic", p),
+        Ok(Err(e)) => {
+            check_native("plain_writes_succeed", false, || format!("{:#}", e));
+        }
+        Ok(Ok(rs)) => {
+            witness("same_key_ok");
+            check_native("one_response_per_message_in_order", rs.len() == 3, || format!("{}", rs.len()));
+            let got = t.w.app.wrap().query_wasm_raw(k0.to_string(), b"slot".to_vec()).unwrap();
+            check_native("effects_of_whole_tree_persisted_in_order", got.as_deref() == want.map(|x| x.as_bytes()), || {
+                format!("pattern {} (key {} before): committed {:?}, the last operation leaves {:?}", pattern, if existed { "present" } else { "absent" }, got.map(|g| lossy(&g)), want)
+            });
+        }
+    }
+}
+
 /// the Executor helpers are thin wrappers: same atomicity
 fn helpers() {
     let mut t = top(2);
@@ -423,6 +471,7 @@ pub fn scenarios(tier: &str) -> Vec<Scenario> {
     }));
     v.push(Scenario::new("sudo_and_wasm_sudo", &["sudo_ok", "sudo_err"], sudo_atomic));
     v.push(Scenario::new("executor_helpers", &["helper_ok", "helper_err"], helpers));
+    v.push(Scenario::new("execute_multi_same_key_set_and_removed_over_three_messages", &["same_key_ok"], same_key_over_messages));
     v.push(Scenario::new("execute_multi_mixing_staking_and_bank_messages", &["staking_multi_ok", "staking_multi_err"], multi_with_staking_messages));
     v.push(Scenario::new(
         "staking_sudo_and_messages_failing_after_time_has_passed",
